@@ -5,7 +5,15 @@
     callbacks that start writers), each checked to be a trace of the concrete step model (SyncMap.model_accepts) and
     fed to the brute-force linearizability checker (SyncMap.linearizable_b), both evaluated in Coq;
 (3) the Go race detector over generated starts and shutdowns, including >= 2 failing scanners;
-(4) the closure footprint extracted with go/ast from the current source -> Facts_C20.v (instantiated obligations)."""
+(4) the closure footprint extracted with go/ast from the current source -> Facts_C20.v (instantiated obligations);
+(5) stress: G goroutines released together by a spin barrier run generated operation lists on ONE shared container truly
+    in parallel (no synchronisation added by the driver), every case in a child process, in the -race build AND in the
+    normal build; workloads on disjoint key ranges (everything a goroutine sees of its own keys and the joined contents are
+    determined by the sequential spec), on shared keys (per-key consequences of atomicity) and tiny shared histories
+    (SyncMap.merge_search: some merge of the result sequences is a legal sequential history); the whole exported API of
+    util/sync2/map.go, util/list/concurrent_set.go and util/list/generic_concurrent_set.go is exercised, and the definition
+    registry of container/support (GetMetaOrRegister / RegisterMeta / GetMetaByName / GetMetas), which the parallel definition
+    scan shares, is a fourth target; every distinct observation is evaluated by Check_C20.stress_check / stress_oracle in Coq."""
 import glob
 import json
 import os
@@ -21,15 +29,19 @@ MANIFEST = {
             "true -> no interleaving of the scanning phase (any number of components / passes / failing subset) or of Close has "
             "a data race (Conc.v, happens-before); fp is extracted from the source with go/ast on every run and the side "
             "condition re-proved; tied to the code by trace acceptance + linearizability checking of recorded histories "
-            "(vm_compute) and by the Go race detector over generated starts and shutdowns",
+            "(vm_compute), by the Go race detector over generated starts and shutdowns, and by parallel stress runs (goroutines "
+            "released together on one shared sync2.Map / ConcurrentSets / generic concurrent set / definition registry, whole "
+            "exported API, normal and -race build) whose observations are checked against the sequential spec (disjoint key "
+            "ranges, sequential coda), per-key consequences of atomicity (shared keys) and SyncMap.merge_search (tiny histories)",
     "design_ref": "DESIGN.md 5 C20",
     "note": "modelled, not verified: Go scheduler, sync.WaitGroup, sync.Mutex, atomicity of sync.Map primitives, Go memory "
             "model happens-before, callee code below the closures (validated dynamically by the race detector)",
     "technique": "Rocq proof (linearization points by trace induction; lockset / fork-join happens-before argument) + "
-                 "instantiated obligation from go/ast + vm_compute trace acceptance and linearizability checking + go -race",
+                 "instantiated obligation from go/ast + vm_compute trace acceptance and linearizability checking + go -race + "
+                 "real-parallelism stress runs (child process per scenario, normal and -race build) evaluated by vm_compute oracles",
 }
 
-HEADER = ("From Coq Require Import List Arith Bool.\nFrom IocVerif Require Import Model.SyncMap Corr.Check_C20.\n"
+HEADER = ("From Coq Require Import List Arith Bool Uint63.\nFrom IocVerif Require Import Model.SyncMap Corr.Check_C20.\n"
           "Import ListNotations.\n")
 
 KF_DIR = os.path.join(vlib.VERIF, "known_findings.d")
@@ -171,6 +183,290 @@ def gen_race(rng, cid, force_multi=False):
             "scanners": rng.choice([1, 1, 2]), "concurrent": rng.choice([0, 0, 4])}
 
 
+# ---- stress: real parallelism ---------------------------------------------------------------------------------
+
+INIT_V = 9
+
+
+def _some(rng, keys, lo=1):
+    return sorted(rng.sample(keys, rng.randint(min(lo, len(keys)), len(keys))))
+
+
+def _stress_op(rng, target, keys, g, klass=None, heavy=0.06):
+    """one operation of goroutine g over `keys`; klass[k] in churn | grow | once restricts what may be done to key k"""
+    klass = klass or {}
+    k = rng.choice(keys)
+    kc = klass.get(k, "churn")
+    r = rng.random()
+    if target == "reg":
+        # the definition registry: GetMetaByName / RegisterMeta / GetMetaOrRegister / GetMetas; no removal exists, so
+        # registrations only happen while names are still absent: writers enumerate right after registering
+        if r < 0.28:
+            return {"op": rng.choice(["range", "range", "rangeopt"])}
+        if r < 0.45:
+            return {"op": "load", "k": k}
+        return {"op": "store" if (kc != "once" and rng.random() < 0.2) else "losf", "k": k, "v": 0}
+    if target == "map":
+        v = 10 * (g + 1) + rng.randrange(5)
+        if r < heavy:
+            return {"op": rng.choice(["range", "range", "rangestop"])}
+        if r < 0.35:
+            return {"op": "load", "k": k}
+        ops = {"churn": ["store", "store", "los", "losf", "delete", "delete"], "grow": ["store", "los", "losf"],
+               "once": ["los", "losf"]}[kc]
+        op = rng.choice(ops)
+        return {"op": op, "k": k, "v": v} if op != "delete" else {"op": op, "k": k}
+    if r < heavy:
+        return {"op": rng.choice(["length", "length", "toarray", "foreach"])}
+    if r < 0.30:
+        return {"op": "exists", "k": k}
+    if r < 0.38:
+        return {"op": rng.choice(["existsany", "existsall"]), "ks": _some(rng, keys)}
+    free = [x for x in keys if klass.get(x, "churn") == "churn"]
+    if r < 0.46:
+        return {"op": "putall", "ks": _some(rng, keys)}
+    if r < 0.54 and free:
+        return {"op": "removeall", "ks": _some(rng, free)}
+    if kc != "churn":
+        return {"op": "put", "k": k}
+    return {"op": rng.choice(["put", "remove"]), "k": k}
+
+
+def _stress_fin(rng, target, nkeys):
+    """sequential coda after the join: every observer on every key, then a sweep of removals with the observers in between"""
+    keys = list(range(nkeys))
+    some = keys if nkeys <= 8 else sorted(rng.sample(keys, 8))
+    fin = []
+    if target == "reg":   # enumerate, register more (also names nobody asked for so far), enumerate again
+        fin += [{"op": "load", "k": k} for k in keys] + [{"op": "range"}]
+        for k in rng.sample(some, len(some)):
+            fin += [{"op": rng.choice(["losf", "losf", "store"]), "k": k, "v": 0}, {"op": rng.choice(["range", "rangeopt", "load"]), "k": k}]
+        fin += [{"op": "range"}] + [{"op": "load", "k": k} for k in some]
+        return fin
+    if target == "map":
+        fin += [{"op": "load", "k": k} for k in keys] + [{"op": "range"}, {"op": "rangestop"}]
+        fin += [{"op": rng.choice(["los", "losf"]), "k": k, "v": 7} for k in some]
+        for k in rng.sample(some, len(some)):
+            fin += [{"op": "delete", "k": k}, {"op": "load", "k": k}]
+        fin += [{"op": "range"}, {"op": "store", "k": 0, "v": 8}, {"op": "load", "k": 0}, {"op": "rangestop"}]
+        return fin
+    fin += [{"op": "exists", "k": k} for k in keys]
+    fin += [{"op": "length"}, {"op": "toarray"}, {"op": "foreach"}, {"op": "existsall", "ks": keys},
+            {"op": "existsany", "ks": keys}]
+    sweep = rng.sample(some, len(some))
+    for i, k in enumerate(sweep):
+        fin += [{"op": "remove", "k": k}, {"op": "exists", "k": k}]
+        if i % 2 == 0:
+            fin += [{"op": "length"}, {"op": "exists", "k": rng.choice(keys)}]
+    fin += [{"op": "removeall", "ks": keys}, {"op": "length"}, {"op": "existsany", "ks": keys},
+            {"op": "putall", "ks": some}, {"op": "length"}, {"op": "existsall", "ks": some}, {"op": "toarray"}]
+    return fin
+
+
+STRESS_TARGETS = ["map", "cset", "gset", "reg"]
+STRESS_WORKLOADS = ["lanes", "disjoint", "disjoint", "shared", "shared", "tiny"]
+
+
+def gen_stress(rng, cid, workload=None, target=None):
+    target = target or rng.choice(STRESS_TARGETS)
+    wl = workload or rng.choice(STRESS_WORKLOADS)
+    # rounds: per child run; the normal build is ~50x faster than the -race build and runs plain_factor times as many
+    c = {"id": cid, "kind": "stress", "target": target, "workload": wl, "width": 0, "plain_factor": 1}
+    reg = target == "reg"
+    if wl == "lanes":
+        # disjoint key ranges and only operations whose results are determined by the goroutine's own program: every
+        # round of a correct container yields the SAME observation, so many rounds cost one Coq case
+        G, W = rng.choice([2, 4, 8, 8]), rng.choice([1, 2, 3])
+        n = rng.choice([40, 100, 200] if not reg else [10, 20])
+        c.update(width=W, nkeys=G * W, rounds=30, plain_factor=10)
+        c["progs"] = [[_stress_op(rng, target, list(range(g * W, (g + 1) * W)), g, heavy=0.0) for _ in range(n)] for g in range(G)]
+        if reg:
+            for g, p in enumerate(c["progs"]):   # enumerations see the other goroutines' names: not determined
+                for i, o in enumerate(p):
+                    if o["op"] in ("range", "rangeopt"):
+                        p[i] = {"op": "load", "k": rng.randrange(g * W, (g + 1) * W)}
+    elif wl == "disjoint":
+        G, W = rng.choice([2, 3, 4, 6, 8]), rng.choice([1, 2, 3] if not reg else [2, 3, 4])
+        n = rng.choice([10, 30, 60] if not reg else [4, 8, 16])
+        c.update(width=W, nkeys=G * W, rounds=rng.choice([2, 4] if not reg else [8, 16]))
+        c["progs"] = [[_stress_op(rng, target, list(range(g * W, (g + 1) * W)), g) for _ in range(n)] for g in range(G)]
+    elif wl == "shared":
+        G, nk = rng.choice([2, 3, 4, 8]), rng.choice([2, 4, 6] if not reg else [4, 8, 16])
+        n = rng.choice([10, 30, 60] if not reg else [4, 8, 16])
+        keys = list(range(nk))
+        klass = {k: rng.choice(["churn", "grow", "once"]) for k in keys}
+        c.update(nkeys=nk, rounds=rng.choice([2, 4] if not reg else [8, 16]), klass=[klass[k] for k in keys])
+        c["progs"] = [[_stress_op(rng, target, keys, g, klass) for _ in range(n)] for g in range(G)]
+    else:
+        G, nk = rng.choice([2, 2, 3]), rng.choice([1, 2])
+        keys = list(range(nk))
+        c.update(nkeys=nk, rounds=150, plain_factor=4)
+        c["progs"] = [[_stress_op(rng, target, keys, g, heavy=0.0) for _ in range(rng.choice([1, 2, 3]))] for g in range(G)]
+        for p in c["progs"]:     # point operations only (the merge search is exponential)
+            for i, o in enumerate(p):
+                if "ks" in o:
+                    p[i] = {"op": "exists" if o["op"].startswith("exists") else ("put" if o["op"] == "putall" else "remove"),
+                            "k": o["ks"][0]}
+    nk = c["nkeys"]
+    init_keys = [k for k in range(nk) if rng.random() < (0.3 if wl != "tiny" else 0.25)]
+    if wl == "shared":   # a key whose only writers are load-or-stores starts absent
+        init_keys = [k for k in init_keys if c["klass"][k] != "once"]
+    c["init"] = [[k, INIT_V if target == "map" else 0] for k in init_keys]
+    c["fin"] = _stress_fin(rng, target, nk)
+    if reg:   # every registering call passes its own component: the operation's v identifies the definition built from it
+        if wl == "tiny":
+            for p in c["progs"]:
+                for i, o in enumerate(p):
+                    if o["op"] in ("range", "rangeopt"):
+                        p[i] = {"op": "load", "k": rng.choice(keys)}
+        nv = 0
+        for o in [{"op": "store", "p": p} for p in c["init"]] + [o for p in c["progs"] for o in p] + c["fin"]:
+            if o["op"] in ("store", "losf"):
+                nv += 1
+                if "p" in o:
+                    o["p"][1] = nv
+                else:
+                    o["v"] = nv
+    return c
+
+
+def xop_term(o):
+    op = o["op"]
+    if op == "length":
+        return "XLength"
+    if op == "rangestop":
+        return "XRangeStop"
+    if op in ("existsany", "existsall", "putall", "removeall"):
+        return "%s %s" % ({"existsany": "XExistsAny", "existsall": "XExistsAll", "putall": "XPutAll",
+                            "removeall": "XRemoveAll"}[op], vlib.coq_list("%d" % k for k in o["ks"]))
+    if op in ("foreach", "rangeopt"):
+        return "XP ORange"
+    return "XP (%s)" % op_term(o)
+
+
+def xret_term(o, r):
+    op = o["op"]
+    if op == "load":
+        return "RVal (Some %d)" % r.get("v", 0) if r.get("f") else "RVal None"
+    if op in ("store", "delete", "put", "remove", "putall", "removeall"):
+        return "RNone"
+    if op in ("los", "losf"):
+        return "RLos %d %s" % (r.get("v", 0), vlib.coq_bool(r.get("f", False)))
+    if op in ("exists", "existsany", "existsall"):
+        return "RBool %s" % vlib.coq_bool(r.get("f", False))
+    if op == "length":
+        return "RVal (Some %d)" % r.get("v", 0)
+    return "RList %s" % vlib.coq_list("(%d, %d)" % (p[0], p[1]) for p in (r.get("p") or []))
+
+
+# ---- compact transport of a stress observation (format: Check_C20.p_stress; packing: Check_C20.unpack) ----
+
+XOP_CODE = {"load": 0, "store": 1, "los": 2, "losf": 3, "delete": 4, "range": 5, "toarray": 5, "foreach": 5, "rangeopt": 5,
+            "put": 6, "exists": 7, "remove": 8, "length": 9, "rangestop": 10, "existsany": 11, "existsall": 12,
+            "putall": 13, "removeall": 14}
+
+
+class Unencodable(Exception):
+    pass
+
+
+def s_num(n):
+    if n < 0 or n > 65535:
+        raise Unencodable(n)
+    return [n] if n < 255 else [255, n >> 8, n & 255]
+
+
+def s_list(items, f):
+    out = s_num(len(items))
+    for x in items:
+        out += f(x)
+    return out
+
+
+def s_pair(p):
+    return s_num(p[0]) + s_num(p[1])
+
+
+def s_xr(o, r):
+    op = o["op"]
+    out = [XOP_CODE[op]]
+    if op in ("load", "delete", "put", "exists", "remove"):
+        out += s_num(o["k"])
+    elif op in ("store", "los", "losf"):
+        out += s_num(o["k"]) + s_num(o["v"])
+    elif op in ("existsany", "existsall", "putall", "removeall"):
+        out += s_list(o["ks"], s_num)
+    if op == "load":
+        out += [2] + s_num(r.get("v", 0)) if r.get("f") else [1]
+    elif op in ("store", "delete", "put", "remove", "putall", "removeall"):
+        out += [0]
+    elif op in ("los", "losf"):
+        out += [4 if r.get("f") else 3] + s_num(r.get("v", 0))
+    elif op in ("exists", "existsany", "existsall"):
+        out += [6 if r.get("f") else 5]
+    elif op == "length":
+        out += [2] + s_num(r.get("v", 0))
+    else:
+        out += [7] + s_list(r.get("p") or [], s_pair)
+    return out
+
+
+def pack(bs):
+    """byte stream -> Coq list of primitive ints, seven bytes per int under a leading 1 marker"""
+    words = []
+    for i in range(0, len(bs), 7):
+        v = 1
+        for b in bs[i:i + 7]:
+            v = v * 256 + b
+        words.append(str(v))
+    return "[" + "; ".join(words) + "]%uint63"
+
+
+def stress_blob(c, obs):
+    out = s_num(0) + s_num(c["width"]) + s_num(c["nkeys"]) + s_list(c["init"], s_pair)
+    out += s_list(list(zip(c["progs"], obs["runs"])), lambda pr: s_list(list(zip(pr[0], pr[1])), lambda x: s_xr(*x)))
+    out += s_list(obs.get("final") or [], s_pair)
+    out += s_list(list(zip(c["fin"], obs.get("fin") or [])), lambda x: s_xr(*x))
+    return pack(out)
+
+
+def _pairs(ops, rets):
+    return vlib.coq_list("(%s, %s)" % (xop_term(o), xret_term(o, r)) for o, r in zip(ops, rets))
+
+
+def stress_term(k, c, outcome, obs, literal=False):
+    """the Coq case of one observation: packed (decoded by Check_C20.SB inside vm_compute) or, literal=True, as a literal term"""
+    oc = {"ok": 0, "race": 1}.get(outcome, 2)
+    if obs is None or oc != 0:
+        return "CStress %d (mkStress %d %d %d [] [] [] [])" % (k, oc or 2, c["width"], c["nkeys"])
+    runs = obs["runs"]
+
+    def negative(rs):
+        return any(r.get("v", 0) < 0 or any(x < 0 for p in (r.get("p") or []) for x in p) for r in rs or [])
+
+    if any(negative(r) for r in runs) or negative(obs.get("fin")) or any(x < 0 for p in (obs.get("final") or []) for x in p):
+        # e.g. Length() = -1: an observation outside the model's domain (nat); it is a failing observation
+        return "CStress %d (mkStress 2 %d %d [] [] [] [])" % (k, c["width"], c["nkeys"])
+    if len(runs) != len(c["progs"]) or any(len(r or []) != len(p) for r, p in zip(runs, c["progs"])) \
+            or len(obs.get("fin") or []) != len(c["fin"]):
+        return "CStress %d (mkStress 2 %d %d [] [] [] [])" % (k, c["width"], c["nkeys"])   # incomplete observation
+    if not literal:
+        try:
+            return "CStress %d (SB %s)" % (k, stress_blob(c, obs))
+        except Unencodable:   # a number outside 0..65535 (e.g. an absurd Length()): a failing observation
+            return "CStress %d (mkStress 2 %d %d [] [] [] [])" % (k, c["width"], c["nkeys"])
+    return "CStress %d (mkStress 0 %d %d %s %s %s %s)" % (
+        k, c["width"], c["nkeys"], vlib.coq_list("(%d, %d)" % (p[0], p[1]) for p in c["init"]),
+        vlib.coq_list(_pairs(p, r or []) for p, r in zip(c["progs"], runs)),
+        vlib.coq_list("(%d, %d)" % (p[0], p[1]) for p in (obs.get("final") or [])),
+        _pairs(c["fin"], obs.get("fin") or []))
+
+
+def stress_payload(c):
+    return {"id": c["id"], "target": c["target"], "nkeys": c["nkeys"], "init": c["init"], "progs": c["progs"],
+            "fin": c["fin"], "rounds": c["rounds"] * (c.get("plain_factor", 1) if c.get("build") != "race" else 1)}
+
+
 # canonical witnesses: D-C20a (two winners), KF-C20c (Range reports k2 without k1; repeated, probabilistic iteration order)
 def corpus():
     cs = [
@@ -244,7 +540,8 @@ def evaluate(ctx, bins, cases, tag):
     seqs = [c for c in cases if c["kind"] == "seq"]
     hists = [c for c in cases if c["kind"] == "hist"]
     races = [c for c in cases if c["kind"] == "race"]
-    by_id, terms = {}, []
+    strs = [c for c in cases if c["kind"] == "stress"]
+    by_id, terms, sterms = {}, [], []
     if seqs:
         rc, res, raw = vlib.run_json(binp, {"mode": "seq", "seq": seqs}, timeout=600)
         if res is None:
@@ -282,10 +579,44 @@ def evaluate(ctx, bins, cases, tag):
             by_id[k] = {"case": c, "outcome": o["outcome"], "run_err": o["run_err"], "n_errs": o["n_errs"],
                         "report": o["report"]}
             terms.append("CRace %d %d %d" % (k, oc, len(c["fail_scan"])))
-    out = vlib.coq_eval_sharded(ctx, "cases_c20_" + tag, HEADER, terms,
-                                {"M": "mismatches", "V": "violations", "NT": "count_nontrivial", "NTI": "nontrivial_ids"},
-                                shard=120)
-    return by_id, out["M"], out["V"], out["NTI"], len(terms)
+    if strs:
+        # one Coq case per DISTINCT observation of a stress case; ids follow the ids of the other cases
+        nxt = max(c["id"] for c in cases) + 2
+        from concurrent.futures import ThreadPoolExecutor
+        groups = [("plain", binp, [c for c in strs if c.get("build") != "race"]),
+                  ("race", binrace, [c for c in strs if c.get("build") == "race"])]
+
+        def go(g):
+            if not g[2]:
+                return (0, {"outs": []}, "")
+            return vlib.run_json(g[1], {"mode": "stress", "stress": [stress_payload(c) for c in g[2]], "par": 6}, timeout=1500)
+
+        with ThreadPoolExecutor(max_workers=2) as ex:
+            results = list(ex.map(go, groups))
+        for (build, _, cs), (rc, res, raw) in zip(groups, results):
+            if res is None:
+                raise vlib.GoBuildError("./cmd/c20 (stress run, %s build)" % build, raw[-3000:])
+            for c, o in zip(cs, res["outs"]):
+                obs = o.get("obs") or []
+                if o["outcome"] != "ok" or not obs:
+                    obs = [None]
+                for ob in obs:
+                    k, nxt = nxt, nxt + 1
+                    by_id[k] = {"case": c, "outcome": o["outcome"] if (ob or o["outcome"] != "ok") else "crash",
+                                "report": o.get("report", ""), "rounds": o.get("rounds", 0),
+                                "distinct_observations": len(o.get("obs") or []), "obs": ob}
+                    sterms.append(stress_term(k, c, by_id[k]["outcome"], ob))
+    defs = {"M": "mismatches", "V": "violations", "NT": "count_nontrivial", "NTI": "nontrivial_ids"}
+    # the stress observations are larger terms: their own, smaller shards, evaluated alongside the others
+    from concurrent.futures import ThreadPoolExecutor
+    with ThreadPoolExecutor(max_workers=2) as ex:
+        f1 = ex.submit(vlib.coq_eval_sharded, ctx, "cases_c20_" + tag, HEADER, terms, defs, 120)
+        f2 = ex.submit(vlib.coq_eval_sharded, ctx, "cases_c20s_" + tag, HEADER, sterms, defs, 40) if sterms else None
+        out = f1.result()
+        if f2:
+            o2 = f2.result()
+            out = {n: out[n] + o2[n] for n in out}
+    return by_id, out["M"], out["V"], out["NTI"], len(terms) + len(sterms)
 
 
 def _spec(m, o):
@@ -358,12 +689,58 @@ def classify_known(c):
     return None
 
 
+def stress_distribution(by_id):
+    """volumes of the stress stream: scenarios and child runs per container / workload / build, goroutines, operations"""
+    runs = {}      # (case id) -> entry: one child run
+    for i in by_id:
+        e = by_id[i]
+        if e["case"]["kind"] == "stress":
+            runs.setdefault(e["case"]["id"], []).append(e)
+    d = {"child_runs": len(runs), "observations_evaluated": sum(len(v) for v in runs.values()),
+         "rounds_run": 0, "by_container": {}, "by_workload": {}, "by_build": {}, "by_container_and_workload": {},
+         "goroutines": {}, "operations_per_round_parallel": 0, "operations_per_round_coda": 0, "operations_executed": 0,
+         "api_methods": {}, "outcomes": {}}
+    names = {"map": {"load": "Map.Load", "store": "Map.Store", "los": "Map.LoadOrStore", "losf": "Map.LoadOrStoreFn",
+                     "delete": "Map.Delete", "range": "Map.Range", "rangestop": "Map.Range(stop early)"}}
+    names["reg"] = {"load": "DefinitionRegistry.GetMetaByName", "store": "DefinitionRegistry.RegisterMeta",
+                    "losf": "DefinitionRegistry.GetMetaOrRegister", "range": "DefinitionRegistry.GetMetas",
+                    "rangeopt": "DefinitionRegistry.GetMetas(opts...)"}
+    for pre, t in (("ConcurrentSets.", "cset"), ("gcset.", "gset")):
+        names[t] = {"put": pre + "Put", "exists": pre + "Exists", "remove": pre + "Remove", "toarray": pre + "ToArray",
+                    "foreach": pre + "ForEach", "length": pre + "Length", "existsany": pre + "ExistsAny",
+                    "existsall": pre + "ExistsAll", "putall": pre + "PutAll", "removeall": pre + "RemoveAll"}
+
+    def bump(m, k, n=1):
+        m[k] = m.get(k, 0) + n
+
+    for es in runs.values():
+        c, rounds = es[0]["case"], es[0].get("rounds", 0)
+        bump(d["by_container"], c["target"])
+        bump(d["by_workload"], c["workload"])
+        bump(d["by_build"], c.get("build", "plain"))
+        bump(d["by_container_and_workload"], c["target"] + "/" + c["workload"])
+        bump(d["goroutines"], str(len(c["progs"])))
+        bump(d["outcomes"], es[0]["outcome"])
+        npar, nfin = sum(len(p) for p in c["progs"]), len(c["fin"])
+        d["rounds_run"] += rounds
+        d["operations_per_round_parallel"] += npar
+        d["operations_per_round_coda"] += nfin
+        d["operations_executed"] += rounds * (npar + nfin)
+        for o in [o for p in c["progs"] for o in p] + c["fin"]:
+            bump(d["api_methods"], names[c["target"]][o["op"]], rounds)
+        if c["init"] and c["target"] != "map":
+            bump(d["api_methods"], ("NewConcurrentSets(arr...)" if c["target"] == "cset" else "NewGenericConcurrentSets(arr...)"), rounds)
+    return d
+
+
 def case_size(c):
     cc = c["case"]
     if cc["kind"] == "seq":
         return (0, len(cc["ops"]))
     if cc["kind"] == "hist":
         return (1, sum(len(t["ops"]) for t in cc["threads"]))
+    if cc["kind"] == "stress":   # a wrong answer (normal build) before a race report, smaller programs first
+        return (3, c.get("outcome") != "ok", sum(len(p) for p in cc["progs"]))
     return (2, cc["n"] + cc["closers"])
 
 
@@ -374,20 +751,30 @@ def run(ctx):
     binp = vlib.go_build(ctx, "./cmd/c20")
     binrace = vlib.go_build(ctx, "./cmd/c20", out=ctx.wpath("bin_c20_race"), race=True)
     bins = (binp, binrace)
-    nseq, nhist, nrace = (1000, 600, 60) if ctx.quick() else (10000, 5000, 500)
+    nseq, nhist, nrace, nstress = (1000, 600, 60, 90) if ctx.quick() else (10000, 5000, 500, 1000)
     cases = []
     if ctx.replay:
         r = json.load(open(ctx.replay))
         cc = r.get("case", {}).get("case")
         cases = [dict(cc, id=0)] if cc else []
     if not cases:
-        cases = [dict(c, id=i) for i, c in enumerate(load_corpus())]
+        for c in load_corpus():    # a stress scenario of the corpus runs in both builds
+            for build in (("plain", "race") if c["kind"] == "stress" else (None,)):
+                cases.append(dict(c, id=len(cases), build=build) if build else dict(c, id=len(cases)))
         for _ in range(nseq):
             cases.append(gen_seq(ctx.rng, len(cases)))
         for _ in range(nhist):
             cases.append(gen_hist(ctx.rng, len(cases)))
         for i in range(nrace):
             cases.append(gen_race(ctx.rng, len(cases), force_multi=(i % 4 == 0)))
+        # every stress scenario runs in the normal build and in the -race build; the first scenarios cover every
+        # container x workload combination
+        combos = [(w, t) for w in ("lanes", "disjoint", "shared", "tiny") for t in STRESS_TARGETS]
+        for i in range(nstress):
+            w, t = combos[i] if i < len(combos) else (None, None)
+            sc = gen_stress(ctx.rng, 0, workload=w, target=t)
+            for build in ("plain", "race"):
+                cases.append(dict(sc, id=len(cases), build=build))
     by_id, M, V, NTI, nev = evaluate(ctx, bins, cases, "main")
     kinds = {}
     for i in by_id:
@@ -400,6 +787,7 @@ def run(ctx):
     def key(c):
         c = dict(c)
         c.pop("id", None)
+        c.pop("build", None)   # one stress scenario run in both builds is one scenario
         return vlib.stable_hash(c)
 
     distinct_nt = len({key(by_id[i]["case"]) for i in NTI})
@@ -415,6 +803,10 @@ def run(ctx):
             more.append(gen_race(ctx.rng, len(more), force_multi=True))
         for _ in range(300):
             more.append(gen_hist(ctx.rng, len(more)))
+        for _ in range(60):
+            sc = gen_stress(ctx.rng, 0)
+            for build in ("plain", "race"):
+                more.append(dict(sc, id=len(more), build=build))
         b2, _, V2, _, _ = evaluate(ctx, bins, more, "widen")
         bad = [i for i in V2 if classify_known(b2[i]) is None]
         bad.sort(key=lambda i: case_size(b2[i]))
@@ -452,6 +844,24 @@ def run(ctx):
             elif cc["kind"] == "seq":
                 for i in range(len(cc["ops"])):
                     cands.append(dict(cc, ops=cc["ops"][:i] + cc["ops"][i + 1:]))
+            elif cc["kind"] == "stress":
+                # fewer goroutines (the last key range goes with its owner), shorter programs, shorter coda, no contents;
+                # a candidate counts only if it fails again, so the probabilistic failures of the normal build shrink less
+                G, W = len(cc["progs"]), cc["width"]
+                if G > 2:
+                    nk = cc["nkeys"] - W if W else cc["nkeys"]
+                    inside = lambda o: o.get("k", 0) < nk and all(x < nk for x in o.get("ks", []))
+                    cands.append(dict(cc, progs=cc["progs"][:-1], nkeys=nk, init=[p for p in cc["init"] if p[0] < nk],
+                                      fin=[o for o in cc["fin"] if inside(o)]))
+                if max(len(p) for p in cc["progs"]) > 2:
+                    cands.append(dict(cc, progs=[p[:(len(p) + 1) // 2] for p in cc["progs"]]))
+                    cands.append(dict(cc, progs=[p[len(p) // 2:] for p in cc["progs"]]))
+                if len(cc["fin"]) > 4:
+                    cands.append(dict(cc, fin=cc["fin"][:len(cc["fin"]) // 2]))
+                if cc["init"]:
+                    cands.append(dict(cc, init=[]))
+                if cc["rounds"] < 64 and c.get("outcome") == "ok":
+                    cands = [dict(x, rounds=64) for x in cands]
             else:
                 for ti, t in enumerate(cc["threads"]):
                     for oi, o in enumerate(t["ops"]):
@@ -472,14 +882,17 @@ def run(ctx):
 
     ids = sorted(by_id)
     samples = []
-    for kind in ("seq", "hist", "race"):
+    for kind in ("seq", "hist", "race", "stress"):
         ks = [i for i in ids if by_id[i]["case"]["kind"] == kind]
+        if kind == "stress":   # a small one (the evidence file stays readable)
+            ks = sorted(ks, key=lambda i: -sum(len(p) for p in by_id[i]["case"]["progs"]))
         samples += [by_id[i] for i in ks[-1:]]
     tpls = {}
     for i in by_id:
         t = by_id[i]["case"].get("tpl")
         if t:
             tpls[t] = tpls.get(t, 0) + 1
+    stress_dist = stress_distribution(by_id)
     cov = {
         "evaluations": nev,
         "distinct_nontrivial": distinct_nt,
@@ -488,10 +901,14 @@ def run(ctx):
                 "interleavings - f of LoadOrStoreFn blocks until other threads ran, Range/ForEach callbacks start writers, plus "
                 "free-running threads (non-trivial: two operations of different threads overlap in real time); race: real "
                 "App.Run + App.Close under the Go race detector with failing scanners and failing closers (non-trivial: >= 2 "
-                "scanners fail in the same pass); distinct = distinct scenario descriptions",
+                "scanners fail in the same pass); stress: G goroutines released together by a spin barrier run generated "
+                "operation lists on one shared sync2.Map / ConcurrentSets / generic concurrent set / definition registry in parallel, each scenario in "
+                "a child process in the normal build and in the -race build, several rounds, one Coq case per distinct "
+                "observation (non-trivial: >= 2 goroutines mutate the container); distinct = distinct scenario descriptions",
         "samples": samples,
         "traces_validated_against_impl": kinds.get("hist", 0),
         "input_distribution": {"kinds": kinds, "nontrivial_by_kind": nt_kinds, "hist_templates": tpls,
+                               "stress": stress_dist,
                                "race_scenarios_with_2plus_failing_scanners":
                                    sum(1 for i in by_id if by_id[i]["case"]["kind"] == "race" and len(by_id[i]["case"]["fail_scan"]) >= 2)},
         "footprint": {n: {"vars": [v["name"] for v in f["vars"]], "add_before_go": f["add_before_go"],
@@ -501,4 +918,7 @@ def run(ctx):
                        assumptions=["Go scheduler, sync.WaitGroup, sync.Mutex, sync.Map primitive atomicity and the Go memory model's "
                                     "happens-before are modelled (Conc.v, SyncMap.v), not verified",
                                     "callee code below the goroutine closures is checked dynamically by the race detector only",
-                                    "histories are ordered by appends under one mutex, never by wall-clock time"])
+                                    "histories are ordered by appends under one mutex, never by wall-clock time",
+                                    "stress runs sample the schedules the Go runtime produces on this machine (spin barrier, several "
+                                    "rounds, normal and -race build); a verdict never depends on timing: every oracle is a consequence "
+                                    "of atomicity that holds for all schedules"])
